@@ -36,7 +36,7 @@ def secsFn (ts : List Thread) (i : Nat) : List Section := (ts[i]?.map Thread.sec
 
 theorem inv_init (ts : List Thread) :
     Inv ts.length (secsFn ts) (init ts) [] [] [] (fun i => (secsFn ts i).map Seg.sec) := by
-  refine ⟨by simp [init], ?_, ?_, ?_, ?_, ?_⟩
+  refine ⟨by simp [init], ?_, ?_, ?_, ?_, ?_, ⟨by simp [init], by simp [init, readings]⟩⟩
   · intro i hi _
     simp [init, secsFn, hi, progSteps_eq_segSteps]
   · intro h hh; simp [init] at hh
@@ -202,21 +202,40 @@ theorem sections_testsOnce (f : List Nat) (ff : Bool) : ∀ (ops : List Op) (l :
 theorem final_facts (i : Input) :
     ∃ closed, (final i).log = flatLog closed ∧ finished (final i) = true ∧ (final i).sem = none
       ∧ (∀ j, j < i.threads.length → secsFn i.threads j = ownedBy j closed)
-      ∧ ∀ p ∈ closed, p.1 < i.threads.length := by
+      ∧ (∀ p ∈ closed, p.1 < i.threads.length)
+      ∧ (final i).semv = 1 ∧ (final i).semLog = readings (final i).log := by
   obtain ⟨c, cu, t, r, h⟩ := inv_run i.threads i.sched
   obtain ⟨hfin, c', cu', t', r', h'⟩ :=
     drain_finishes (remaining (init i.threads)) h (remaining_run_le i.sched (init i.threads))
   obtain ⟨hsem, hlog, hacc⟩ := inv_finished h' hfin
-  exact ⟨c', hlog, hfin, hsem, hacc, h'.owners⟩
+  have hv := h'.cnt.1
+  rw [hsem] at hv
+  exact ⟨c', hlog, hfin, hsem, hacc, h'.owners, hv, h'.cnt.2⟩
 
 /-- **Headline**: the executable specification holds of the model's trace, for every input. -/
+theorem exclusive_calls (i : Nat) : ∀ (cs : Section) (rest : List Ev),
+    exclusiveFrom [i] (cs.map (fun c => (i, EvK.call c.1 c.2)) ++ (i, EvK.rel) :: rest) = exclusiveFrom [] rest
+  | [], rest => by simp [exclusiveFrom]
+  | c :: cs, rest => by simp [exclusiveFrom, exclusive_calls i cs rest]
+
+/-- a log of whole critical sections: every call is made by the one thread that is inside a section -/
+theorem exclusive_flat : ∀ closed : List (Nat × Section), exclusiveFrom [] (flatLog closed) = true
+  | [] => rfl
+  | p :: closed => by
+      have : flatLog (p :: closed) = (p.1, EvK.acq) :: (p.2.map (fun c => (p.1, EvK.call c.1 c.2)) ++ (p.1, EvK.rel) :: flatLog closed) := by
+        simp [flatLog, secEvents]
+      rw [this]
+      simp only [exclusiveFrom]
+      rw [exclusive_calls]
+      exact exclusive_flat closed
+
 theorem holds_model (i : Input) : holds i (model i) = true := by
-  obtain ⟨closed, hlog, hfin, _, hacc, hown⟩ := final_facts i
+  obtain ⟨closed, hlog, hfin, _, hacc, hown, hv, hrd⟩ := final_facts i
   have hp : parse (model i).log = some closed := by simp [model, hlog, parse_flat]
   have hsecs : ∀ j, j < i.threads.length → secsOf j closed = (i.threads[j]?.map Thread.secs).getD [] := by
     intro j hj; rw [secsOf_eq_ownedBy, ← hacc j hj]; rfl
   simp only [holds, clauses, List.all_cons, List.all_nil, Bool.and_true, Bool.and_eq_true]
-  refine ⟨?_, ?_, ?_, ?_, ?_⟩
+  refine ⟨?_, ?_, ?_, ?_, ?_, ?_, ?_⟩
   · simp [cMutex, hp]
   · simp only [cShape, hp, List.all_eq_true]
     intro p hpm
@@ -232,6 +251,8 @@ theorem holds_model (i : Input) : holds i (model i) = true := by
     rw [hsecs j hj]
     simp only [hj, List.getElem?_eq_getElem, Option.map_some, Option.getD_some, Thread.secs]
     exact sections_testsOnce _ _ _ _
+  · simp only [cExclusive, model, hlog]; exact exclusive_flat closed
+  · simp [cSemCounter, model, hv, hrd]
   · simpa [cNoDeadlock, model] using hfin
 
 /-! ## readable statements -/
@@ -427,7 +448,7 @@ theorem C12_projection (i : Input) (j : Nat) (hj : j < i.threads.length) :
 theorem C12_alone (t : Thread) (sched : List Nat) :
     (model { threads := [t], sched := sched }).log = flatLog (t.secs.map fun s => (0, s)) := by
   have h := C12_projection { threads := [t], sched := sched } 0 (by simp)
-  obtain ⟨closed, hlog, _, _, _, hown⟩ := final_facts { threads := [t], sched := sched }
+  obtain ⟨closed, hlog, _, _, _, hown, _⟩ := final_facts { threads := [t], sched := sched }
   have hall : (model { threads := [t], sched := sched }).log.filter (fun e => e.1 == 0)
       = (model { threads := [t], sched := sched }).log := by
     rw [List.filter_eq_self]
@@ -585,6 +606,77 @@ enabled thread) ends with every thread finished and the semaphore free. -/
 theorem C12_terminates (i : Input) : (model i).finished = true ∧ (final i).sem = none := by
   obtain ⟨_, _, hfin, hsem, _, _⟩ := final_facts i
   exact ⟨by simpa [model] using hfin, hsem⟩
+
+/-- **C12 (the semaphore's counter)** — under EVERY schedule, fault plan and program mix the counter of the shared semaphore is 1
+when no thread is inside a critical section and 0 while one is: never 2.  Every reading taken after an operation on the semaphore
+is 0 after an acquire and 1 after a release, and when the run is over the counter is 1 - released exactly as often as acquired. -/
+theorem C12_counter (ts : List Thread) (sched : List Nat) :
+    let s := run (init ts) sched
+    s.semv = (if s.sem.isNone then 1 else 0) ∧ s.semv ≤ 1 ∧ s.semLog = readings s.log ∧ ∀ v ∈ s.semLog, v ≤ 1 := by
+  obtain ⟨c, cu, t, r, h⟩ := inv_run ts sched
+  refine ⟨h.cnt.1, ?_, h.cnt.2, ?_⟩
+  · rw [h.cnt.1]; split <;> omega
+  · intro v hv
+    rw [h.cnt.2] at hv
+    simp only [readings, List.mem_filterMap] at hv
+    obtain ⟨e, _, he⟩ := hv
+    cases hk : e.2 <;> simp [hk, EvK.reading?] at he <;> omega
+
+theorem C12_counter_final (i : Input) : (model i).sem = 1 ∧ (model i).sems = readings (model i).log := by
+  obtain ⟨_, _, _, _, _, _, hv, hrd⟩ := final_facts i
+  exact ⟨hv, hrd⟩
+
+theorem exclusive_flat_append : ∀ (closed : List (Nat × Section)) (rest : List Ev),
+    exclusiveFrom [] (flatLog closed ++ rest) = exclusiveFrom [] rest
+  | [], rest => by simp [flatLog]
+  | p :: closed, rest => by
+      have : flatLog (p :: closed) ++ rest
+          = (p.1, EvK.acq) :: (p.2.map (fun c => (p.1, EvK.call c.1 c.2)) ++ (p.1, EvK.rel) :: (flatLog closed ++ rest)) := by
+        simp [flatLog, secEvents]
+      rw [this]
+      simp only [exclusiveFrom]
+      rw [exclusive_calls]
+      exact exclusive_flat_append closed rest
+
+/-- **C12 (control calls land between blocks)** — after *any* schedule: every call the target has received - `stop()` and the
+other control calls like the calls of a test's block - was made while the calling thread, and no other, was inside a critical
+section.  A control call is never delivered in the middle of another thread's block. -/
+theorem C12_control_between_blocks (ts : List Thread) (sched : List Nat) :
+    exclusiveFrom [] (run (init ts) sched).log = true := by
+  obtain ⟨c, cu, t, r, h⟩ := inv_run ts sched
+  rw [h.log_eq, exclusive_flat_append]
+  cases hs : (run (init ts) sched).sem with
+  | none => simp [openLog, exclusiveFrom]
+  | some k =>
+    simp only [openLog, exclusiveFrom]
+    have : ∀ cs : Section, exclusiveFrom [k] (cs.map fun c => (k, EvK.call c.1 c.2)) = true := by
+      intro cs
+      induction cs with
+      | nil => rfl
+      | cons c cs ih => simp [exclusiveFrom, ih]
+    exact this cu
+
+/-! ### what a non-blocking acquire in `stop()` would do (the model can say it; no method of the class does it)
+
+`stop()` written as `acquire(blocking=False) · try: target.stop() · finally: release()` is the micro-step program `seededStop`.
+Thread 0 is pre-empted inside its block, thread 1 runs that `stop()` and then a whole test, thread 0 resumes: `stop` is
+delivered in the middle of thread 0's block, thread 1's block too, and the counter ends at 2. -/
+
+def seededStop : List Step := [.tryAcq, .call (.ctl .stop) false, .rel]
+
+def blockOf (id : TId) : Section :=
+  [(.time .unset, false), (.startTest id, false), (.time .wall, false), (.outcome .success id, false), (.stopTest id, false)]
+
+def seededState : St := { pcs := [secSteps (blockOf (.t 0)), seededStop ++ secSteps (blockOf (.t 1))] }
+
+def seededRun : St := run seededState ([0, 0, 0] ++ List.replicate 10 1 ++ List.replicate 5 0)
+
+theorem C12_nonblocking_stop_breaks :
+    seededRun.semv = 2 ∧ finished seededRun = true
+      ∧ Spec.C12.exclusiveFrom [] seededRun.log = false
+      ∧ (seededRun.semLog == readings seededRun.log) = false
+      ∧ (Spec.C12.parse seededRun.log).isSome = false := by
+  decide
 
 /-- the forwarder-local state in which each operation of a program starts -/
 def locsOf (f : List Nat) (ff : Bool) : Loc → List Op → List Loc
